@@ -370,7 +370,10 @@ func (a *SPS) ConstraintFlags() byte {
 
 // GetSARfromIDC - get Sample Aspect Ratio from IDC index
 func GetSARfromIDC(index uint) (uint, uint, error) {
-	if index < 1 || index > 16 {
+	if index == 0 { // Table E-1: Unspecified
+		return 0, 0, nil
+	}
+	if index > 16 {
 		return 0, 0, fmt.Errorf("SAR bad index %d", index)
 	}
 	aspectRatioTable := [][]uint{
